@@ -26,4 +26,22 @@ PROPS = {
         ],
         explanation="",
     ),
+    "C05": dict(
+        module="SeliumModel.Props.C05",
+        suites=["wire"],
+        level="proof",
+        rule="wenc: random frames of all 8 kinds (arbitrary UTF-8 names incl. multi-byte, 0-5 headers, operations, payloads) plus payloads at MAX-1/MAX/MAX+1 for 4 frame shapes, encoded by the real MessageCodec and by the Lean model, bytes compared; "
+             "wdec: concatenations of 0-5 valid frames under 4 chunkings (whole, 1-byte, header-straddling, random) and malformed streams (truncated, bit-flipped, replaced byte, adversarial inner length, unknown type, random bytes, random body) fed to a real FramedRead<_, MessageCodec> and to the model, item sequences compared; "
+             "benc/bdec: message batches and malformed batches; distinct = distinct case lines; no case is counted trivial",
+        trusted_base=COMMON_TRUST + [
+            "bincode 1.3 / serde layout as modelled in Wire/Bincode.lean (fixint LE, u64 lengths, u32 variant index, Option tag byte, trailing bytes allowed, slice reader checks length before copying)",
+            "tokio_util FramedRead state machine as modelled in Wire/Framed.lean; bytes::BytesMut",
+            "modelled by hand, not translated: control flow of MessageCodec::{encode,decode}, Frame::try_from dispatch, utils.rs; regenerated from source: MAX_MESSAGE_SIZE, marker sizes, the 8 tags, get_type/try_from/get_length/write_to_bytes arm tables, every payload struct as a schema",
+        ],
+        assumptions=[
+            "a Rust HashMap of headers is represented by its entries in iteration order (keys unique); equality of decoded frames is equality of those lists, which implies equality of the maps",
+            "lengths fit usize (64-bit target)",
+        ],
+        explanation="",
+    ),
 }
